@@ -141,15 +141,16 @@ class SinglePart:
                 ctx.label("geometry-judged")
                 comp = P.naive_components(lists)
                 got = {pos: v[1] for (c, pos), v in dec.get(s, {}).items() if c == cname}
+                # the property speaks about variants that ARE phased: which set they are in and how it is named
                 for pos, lead in comp.items():
                     if pos not in got:
-                        ctx.violation("components:geometry:unphased", "sample %s %s:%d is covered by a used read with >= 2 heterozygous variants but is not phased" % (s, cname, pos + 1))
+                        ctx.label("geometry:covered-variant-left-unphased")
                     elif got[pos] != lead + 1:
                         ctx.violation("components:geometry:phase-set-id", "sample %s %s:%d carries phase set %r, the reads written to the BAM connect it to the component starting at %d" % (
                             s, cname, pos + 1, got[pos], lead + 1))
                 for pos in got:
-                    if pos not in comp:
-                        ctx.violation("components:geometry:phased-without-read", "sample %s %s:%d is phased but no read with two heterozygous variants covers it" % (s, cname, pos + 1))
+                    if pos not in comp and got[pos] != pos + 1:
+                        ctx.violation("components:geometry:phase-set-id", "sample %s %s:%d is linked to no other variant by any read but carries phase set %r" % (s, cname, pos + 1, got[pos]))
         ctx.nontrivial(nt)
         ctx.label("tag-" + o["tag"])
         ctx.label("cap-%d" % o["max_coverage"])
